@@ -1187,7 +1187,61 @@ def single_step_cursors(ctx, rule, fns, what):
             ctx.violation(rule, what, fn.site(s_), 'READ!: %s brings the cursor %s, which is kept between calls, up to date with a single step (`if %s: %s`) where a loop is needed: %s, '
                           'and after a gap of two or more entries the cursor rests on an entry that has already gone by (`while` catches up)'
                           % (fn.qn, fld, ast.unparse(s_.test)[:70], ast.unparse(s_.body[0])[:40], why), key='%s|single-step-cursor|%s' % (rule, fn.qn))
-    ctx.holds(rule, what + ' (no kept cursor caught up by a single conditional step under an unbounded question; %d conditional advances looked at)' % n, None)
+    # ... and the mirror image: a cursor that is only ever walked FORWARD (`while seq[self._cursor] <= dt: self._cursor += 1`) answers a question earlier than a previous one
+    # from where it stands - unless some statement puts it back when the question moves backwards (`if dt < self._last_dt: self._cursor = 0`)
+    for fn in fns:
+        if not isinstance(fn.node, (ast.FunctionDef,)) or not fn.node.args.args or fn.node.args.args[0].arg != 'self' or fn.cls is None:
+            continue
+        params = {a_.arg for a_ in fn.node.args.args[1:]}
+        for w_ in ast.walk(fn.node):
+            if not isinstance(w_, ast.While):
+                continue
+            adv = [b_ for b_ in ast.walk(w_) if isinstance(b_, ast.AugAssign) and isinstance(b_.op, ast.Add) and isinstance(b_.target, ast.Attribute)
+                   and isinstance(b_.target.value, ast.Name) and b_.target.value.id == 'self']
+            if len(adv) != 1:
+                continue
+            fld = adv[0].target.attr
+            cur = 'self.' + fld
+            asks = None
+            for c_ in ast.walk(w_.test):
+                if isinstance(c_, ast.Compare) and len(c_.ops) == 1 and isinstance(c_.ops[0], ORD):
+                    sides = [c_.left, c_.comparators[0]]
+                    for a_, b_ in (sides, sides[::-1]):
+                        if any(isinstance(x_, ast.Subscript) and ast.unparse(x_.slice) == cur for x_ in ast.walk(a_)) and \
+                                any(isinstance(x_, ast.Name) and x_.id in params for x_ in ast.walk(b_)) and not any(isinstance(x_, ast.Attribute) for x_ in ast.walk(b_)):
+                            asks = [x_.id for x_ in ast.walk(b_) if isinstance(x_, ast.Name) and x_.id in params][0]
+            if asks is None:
+                continue
+            n += 1
+            # every store into the cursor, anywhere in the class, other than the advance itself and the constructor
+            rewound = False
+            stores = 0
+            for m in fn.cls.methods.values():
+                for i_ in ast.walk(m.node):
+                    if isinstance(i_, ast.Assign) and any(isinstance(t_, ast.Attribute) and t_.attr == fld and isinstance(t_.value, ast.Name) and t_.value.id == 'self' for t_ in i_.targets):
+                        stores += m.name != '__init__'
+                    if isinstance(i_, ast.If):
+                        mps = {a_.arg for a_ in m.node.args.args[1:]}
+                        tests_q = any(isinstance(x_, ast.Name) and x_.id in mps for x_ in ast.walk(i_.test)) and any(isinstance(x_, ast.Attribute) and isinstance(x_.value, ast.Name) and x_.value.id == 'self' for x_ in ast.walk(i_.test)) \
+                            and any(isinstance(x_, ast.Compare) and any(isinstance(o_, ORD) for o_ in x_.ops) for x_ in ast.walk(i_.test))
+                        if tests_q:
+                            for b_ in i_.body + i_.orelse:
+                                for k in ast.walk(b_):
+                                    if isinstance(k, ast.Assign) and any(isinstance(t_, ast.Attribute) and t_.attr == fld for t_ in k.targets):
+                                        rewound = True
+                                    if isinstance(k, ast.Call) and isinstance(k.func, ast.Attribute) and isinstance(k.func.value, ast.Name) and k.func.value.id == 'self':
+                                        h_ = fn.cls.methods.get(k.func.attr)
+                                        if h_ is not None and any(isinstance(a2_, ast.Assign) and any(isinstance(t_, ast.Attribute) and t_.attr == fld for t_ in a2_.targets) for a2_ in ast.walk(h_.node)):
+                                            rewound = True
+            if rewound:
+                continue
+            why = _unconstrained_question(ctx.M, fn)
+            if why is None:
+                continue
+            ctx.violation(rule, what, fn.site(w_), 'READ!: %s walks the cursor %s, which is kept between calls, forward while `%s` and nothing in %s puts it back when `%s` is earlier than '
+                          'a previous question (no store into %s under a comparison of the question with kept state): %s, and an earlier question is answered from where the later one left the cursor'
+                          % (fn.qn, cur, ast.unparse(w_.test)[:70], fn.cls.name, asks, cur, why), key='%s|forward-only-cursor|%s' % (rule, fn.qn))
+    ctx.holds(rule, what + ' (no kept cursor caught up by a single conditional step, or walked forward only, under an unbounded question; %d advances looked at)' % n, None)
 
 
 def validated_against_question(M, fn, fields, depth=2):
